@@ -19,21 +19,32 @@ def install(world):
         (v,) = args
         return I.length(v)
 
+    def _fold(I, args, kwargs, pick_first, concrete):
+        if kwargs or len(args) < 2:
+            raise Unsupported("min/max of an iterable or with key/default")
+        vals = [I.force(x) for x in args]
+        if not any(is_sym(v) for v in vals):
+            return concrete(*vals)
+        acc = to_z3_int(vals[0])
+        for v in vals[1:]:
+            v = to_z3_int(v)
+            acc = z3.If(pick_first(acc, v), acc, v)   # on a tie the earlier argument wins, as in CPython
+        return acc
+
     @world.stub_call(builtins.max)
     def _max(I, args, kwargs, node):
-        a, b = (I.force(x) for x in args)
-        if not is_sym(a) and not is_sym(b):
-            return max(a, b)
-        a, b = to_z3_int(a), to_z3_int(b)
-        return z3.If(a >= b, a, b)
+        return _fold(I, args, kwargs, lambda a, b: a >= b, max)
 
     @world.stub_call(builtins.min)
     def _min(I, args, kwargs, node):
-        a, b = (I.force(x) for x in args)
-        if not is_sym(a) and not is_sym(b):
-            return min(a, b)
-        a, b = to_z3_int(a), to_z3_int(b)
-        return z3.If(a <= b, a, b)
+        return _fold(I, args, kwargs, lambda a, b: a <= b, min)
+
+    @world.stub_call(builtins.range)
+    def _range(I, args, kwargs, node):
+        vals = [I.force(x) for x in args]
+        if kwargs or any(is_sym(v) for v in vals):
+            raise Unsupported("range() with symbolic bounds (the repository iterates collections, not ranges)")
+        return tuple(range(*vals))   # an immutable concrete sequence: iterated by unrolling
 
     @world.stub_call(builtins.pow)
     def _pow(I, args, kwargs, node):
